@@ -12,7 +12,8 @@ THEOREM_NAMES = ["parse_print_tokens", "parse_print_tokens_one", "vanilla_rows_o
                  "reids_text_binary_text", "vanilla_text_binary_text_partial",
                  "vanilla_text_binary_text_counterexample", "tokeniser_bridge", "src_syms_ok",
                  "printed_line_tokenises", "source_line_text_roundtrip", "observe_id",
-                 "print_depends_on_current_values", "parse_print_after_update"]
+                 "print_depends_on_current_values", "parse_print_after_update", "parse_print_rows",
+                 "custom_flavour_last_wins"]
 THEOREMS = [(M_, "NQ.C17." + n) for n in THEOREM_NAMES]
 TRANSLATORS = ["instr_table", "asm_tables"]
 LEVEL_TEXT = ('Lean theorems at CHARACTER level: parse_print — for every flavour table and every list of instructions '
@@ -62,7 +63,9 @@ def run(ctx):
                 "whole random subroutines: text -> objects -> binary -> objects -> text; object histories: instructions "
                 "printed (str/debug_str/str(subroutine)), updated in place (field assignment, property setters line/"
                 "qreg/angle_num/..., instantiate, NV transpiler re-targeting branches) and printed again, judged "
-                "against the current object; malformed stream: "
+                "against the current object; user flavours (subclass hook appending classes that re-use a mnemonic "
+                "and/or opcode, core overrides, double replacements) with the model table built in the same "
+                "order; binary leg through Deserializer and deserialize(); malformed stream: "
                 "single/double edits of printed lines (deleted/inserted characters, doubled spaces, swapped/"
                 "dropped/added operands, wrong/unknown/other-flavour mnemonics, literals in register slots, "
                 "integer indices, bracket damage), alone or embedded in programs. Non-trivial = some operand "
@@ -113,12 +116,21 @@ def run(ctx):
                                    imm0=op.Immediate(3), imm1=op.Immediate(4), imm2=op.Immediate(5),
                                    imm3=op.Immediate(6))
     subs.append(("vanilla", [mb]))
+    subs.append(("nv", [mb]))
+    subs.append(("reids", [mb]))
     for _ in range(n_subs):
         fname = rng.choice(list(H.FLAVOURS))
         n = rng.choice([0, 1, 2, 3, 5, 8, 13, rng.randrange(40)])
         subs.append((fname, [H.random_instr(fname, rng) for _ in range(n)]))
     sm = ctx.driver.batch([{"op": "text.parse", "fl": f, "lines": [X.real_print(i) for i in instrs]}
                            for f, instrs in subs])
+
+    def _deserialize_default(raw):
+        from netqasm.lang.parsing.binary import deserialize
+        try:
+            return deserialize(bytes(raw))
+        except Exception:
+            return None
 
     def tbt(fname, instrs):
         """text -> objects -> binary -> objects -> text on the real code; None if stable"""
@@ -127,14 +139,20 @@ def run(ctx):
         if sub is None or list(sub.instructions) != list(instrs):
             return {"stage": "text->objects", "parsed": rp}
         raw = H.real_encode_sub(list(sub.instructions), 0, (0, 0))
-        back = H.real_decode_sub(fname, raw) if raw is not None else None
-        if back is None:
-            return {"stage": "binary", "bytes": raw}
-        lines2 = [X.real_print(i) for i in back.instructions]
-        if lines2 != lines:
-            diff = [k for k, (a, b) in enumerate(zip(lines, lines2)) if a != b]
-            return {"stage": "binary->text", "differs_at": diff[:5],
-                    "first": [lines[diff[0]], lines2[diff[0]]] if diff else None}
+        # the binary leg through every public entry point: the Deserializer class, the function
+        # `deserialize(data, flavour=f)` and, for vanilla, its default-flavour form `deserialize(data)`
+        entries = [("Deserializer(flavour)", H.real_decode_sub), ("deserialize(data, flavour)", H.real_decode_sub_fn)]
+        if fname == "vanilla":
+            entries.append(("deserialize(data)", lambda f, r: _deserialize_default(r)))
+        for ename, dec in entries:
+            back = dec(fname, raw) if raw is not None else None
+            if back is None:
+                return {"stage": "binary", "entry": ename, "bytes": raw}
+            lines2 = [X.real_print(i) for i in back.instructions]
+            if lines2 != lines:
+                diff = [k for k, (a, b) in enumerate(zip(lines, lines2)) if a != b]
+                return {"stage": "binary->text", "entry": ename, "differs_at": diff[:5],
+                        "first": [lines[diff[0]], lines2[diff[0]]] if diff else None}
         return None
 
     for (fname, instrs), mq in zip(subs, sm):
@@ -270,6 +288,49 @@ def run(ctx):
             res.count("hist-sub:transpile-raises:" + type(e).__name__)
             continue
         judge_sub("transpile", "nv", nvsub.instructions, {"id": src, "source": src})
+
+    # -------------------------------------------------- stream U: user flavours
+    # flavours beyond the three stock ones, built through the documented subclass hook with classes
+    # that re-use a mnemonic and/or an opcode; the model table is built in the same insertion order
+    # (core, then `instrs`) and resolves with "last wins" (`lastBy` = dict.update)
+    for uname, factory in X.CUSTOM_FLAVOURS.items():
+        classes, rows, by_mn, by_id = X.custom_table(factory)
+        ucases = []
+        for c in classes:
+            for inst in H.instances_of(c, rng, 2, 12 if thorough else 4):
+                ucases.append(inst)
+        strs = [X.real_print(i) for i in ucases]
+        pm_u = ctx.driver.batch([{"op": "text.print", "rows": rows, "i": H.instr_to_json(i)} for i in ucases])
+        tm_u = ctx.driver.batch([{"op": "text.tbt", "rows": rows, "lines": [s_]} for s_ in strs])
+        for inst, s_, mp, mt in zip(ucases, strs, pm_u, tm_u):
+            c = type(inst)
+            res.evaluations += 1
+            res.count("user-flavour:" + uname)
+            res.nontrivial.add(("user", uname, s_))
+            if mp.get("s") != s_:
+                res.disagreements.append({"stream": "text.print-user-flavour", "input": {"flavour": uname, "text": s_},
+                                          "model": mp.get("s"), "code": s_})
+            rt = X.real_tbt_custom(factory, [s_])
+            cmp_keys = ("err", "is", "is2", "lines2")
+            if {k: rt.get(k) for k in cmp_keys} != {k: mt.get(k) for k in cmp_keys}:
+                res.disagreements.append({"stream": "text.tbt-user-flavour",
+                                          "input": {"flavour": uname, "rows_tail": rows[30:], "text": s_},
+                                          "model": str(mt)[:400], "code": str(rt)[:400]})
+            if "entry_points_differ" in rt:
+                res.failures.append({"what": "Deserializer(flavour) and deserialize(data, flavour) disagree",
+                                     "kf": None, "input": {"flavour": uname, "text": s_, "detail": rt}})
+            # oracle, for the classes the flavour's maps must resolve to (last class with the mnemonic /
+            # opcode, the documented dict.update order); shadowed classes cannot be written by construction
+            j = H.instr_to_json(inst)
+            if by_mn[c.mnemonic] is c and rt.get("is") != [j]:
+                res.failures.append({"what": "user flavour: parse_text_subroutine(str(i), flavour=f).instructions "
+                                             "!= [i] for the class the flavour registers last for this mnemonic",
+                                     "kf": None, "input": {"flavour": uname, "instrs": [H.T.cls_name(k) for k in
+                                                                                       factory().instrs],
+                                                           "i": j, "text": s_, "parsed": rt}})
+            elif by_mn[c.mnemonic] is c and by_id[c.id] is c and rt.get("lines2") != [s_]:
+                res.failures.append({"what": "user flavour: text -> binary -> text is not stable", "kf": None,
+                                     "input": {"flavour": uname, "i": j, "text": s_, "result": rt}})
 
     # -------------------------------------------------- stream C: malformed / differently formed source
     all_mn = sorted({c.mnemonic for f in H.FLAVOURS for c in H.flavour_classes(f)})
